@@ -30,6 +30,9 @@ def run(ctx):
     r46(ctx, api)
     r48(ctx, api)
     r410(ctx, api)
+    from . import simple_append as _sa, c14 as _c14
+    _sa.commit_after_loop_rule(ctx, 'R4.11')
+    _c14.r147(ctx, 'R4.12')
     from . import findings2 as _f2
     _f2.json_statistics(ctx, 'R4.9')
     from . import c02, c05, c20
